@@ -25,19 +25,25 @@
                                                 (C17_schedule_is_sort: k-way merge = stable sort;
                                                  C17_sort_binds: bucket sort = stable sort)
                                                 refuted in region 1: C17_cache_tie_refuted
-                                                NOT PROVED: bounds and monotonicity of min_run
+                                                C17_policy_bounds, C17_cache_bounds: cold misses <= fills
+                                                <= reads, for the policy and per tensor on the model  full
+                                                C17_monotone: fills of the policy never increase with the
+                                                capacity, for schedules without staging pins (reads and
+                                                writes)                                          full
+                                                NOT PROVED: monotonicity with staging pins; its lift to the
+                                                oracle clause non_increasing; optimality
      oracle on the model                        C17_model_meets_spec: outside region 1 every clause of
-                                                the oracle holds on the model, given the two clauses
-                                                about the policy itself (bounds_ok, non_increasing) —
+                                                the oracle holds on the model, given the monotonicity of
+                                                the policy over the case's capacities (non_increasing) —
                                                 C17_model_meets_spec_cache: given the whole cache clause;
                                                 C17_model_meets_spec_no_cache: without cache runs
-   The bounds / monotonicity clauses of the cache stay decided on every run by the oracle
+   The monotonicity clause of the cache stays decided on every run by the oracle
    [c17_holds] (evaluated on the implementation's output: verdict bit 1, and on the model's: bit 4). *)
 From Coq Require Import ZArith List Bool.
 From FT Require Import Model.Base Model.Obs Model.C17Traffic Model.C17Check
                        Proofs.ObsP Proofs.C17TrafficP Proofs.C17CheckP Proofs.C17SchedP
                        Proofs.C17BuffetP Proofs.C17LiftP Proofs.C17CacheP Proofs.C17SortP
-                       Proofs.C17ParamP Proofs.C17CaseP.
+                       Proofs.C17ParamP Proofs.C17CaseP Proofs.C17PolicyP Proofs.C17BoundsP.
 Import ListNotations.
 Open Scope Z_scope.
 
@@ -201,10 +207,55 @@ Proof.
 Qed.
 Print Assumptions C17_cache_refines_min.
 
-(* NOT PROVED (kept as oracle clauses [bounds_ok], [non_increasing], evaluated on every case):
-     the policy's fills lie between the number of distinct lines first touched by a read and the
-     number of reads;  C17_monotone : they never increase with the capacity;  optimality of
-     min_run among all replacement policies with bypass.
+(* bounds of the reference policy itself: per binding i, for any initial residents that were seen
+   before (hist) — a fill happens only on a read miss, and the first access to a line is a miss:
+     fills0(i) + #{reads of i that are the first access to their line} <= fills(i)
+                                                               <= fills0(i) + #{reads of i} *)
+Theorem C17_policy_bounds : forall (A : Type) (same : A -> A -> bool) (isw isstg : A -> bool)
+    (bidx : A -> nat) cap line i S R P fills hist,
+  (forall y, In y (R ++ P) -> In y hist) ->
+  (forall x, In x S -> (bidx x < length fills)%nat) ->
+  nth i fills 0 + gcold same isw bidx i hist S
+    <= nth i (g_min_run same isw isstg bidx cap line S R P fills) 0
+  /\ nth i (g_min_run same isw isstg bidx cap line S R P fills) 0 <= nth i fills 0 + greads isw bidx i S.
+Proof. intros A same isw isstg bidx. exact (min_run_bounds same isw isstg bidx). Qed.
+Print Assumptions C17_policy_bounds.
+
+(* ... lifted: outside region 1 the model's per-tensor read bits satisfy the oracle's bounds clause
+   (distinct lines first touched by a read <= fills/line <= reads) *)
+Theorem C17_cache_bounds : forall c cap, c17_wf c = true -> c17_region c = 0 -> In cap (k_caps c) ->
+  bounds_ok c (model_cache c cap) = true.
+Proof.
+  intros c cap W R H. apply model_bounds_ok; [exact W|exact (region0_no_ties c cap R H)].
+Qed.
+Print Assumptions C17_cache_bounds.
+
+(* C17_monotone (policy level): for any same-line relation that is an equivalence, 0 <= cap1 <=
+   cap2, a positive line size and a schedule without staging-area (pinned) accesses — reads and
+   writes alike — every binding's fills at the larger capacity are at most those at the smaller.
+   Proof (Proofs/C17PolicyP.v, mono_run): the resident set of the smaller cache stays included in
+   that of the larger one up to [same], and the larger cache never has less free room
+   (|R2| - |R1| <= cap2/line - cap1/line); when both are full and both replace, the line evicted
+   from the larger cache is not kept by the smaller one because two maxima of a live set are
+   the same line (max_unique). *)
+Theorem C17_monotone : forall (A : Type) (same : A -> A -> bool) (isw isstg : A -> bool)
+    (bidx : A -> nat),
+  (forall a, same a a = true) -> (forall a b, same a b = same b a) ->
+  (forall a b c, same a b = true -> same b c = true -> same a c = true) ->
+  forall cap1 cap2 line, 0 < line -> cap1 <= cap2 -> forall sched fills, 0 <= cap1 ->
+  (forall x, In x sched -> isstg x = false) ->
+  Forall2 Z.le (g_min_run same isw isstg bidx cap2 line sched [] [] fills)
+               (g_min_run same isw isstg bidx cap1 line sched [] [] fills).
+Proof.
+  intros A same isw isstg bidx Hr Hs Ht cap1 cap2 line Hl Hc sched fills H0 Hst.
+  exact (policy_monotone same isw isstg bidx Hr Hs Ht cap1 cap2 line Hl Hc sched fills H0 Hst).
+Qed.
+Print Assumptions C17_monotone.
+
+(* NOT PROVED (kept as the oracle clause [non_increasing], evaluated on every case):
+     monotonicity with staging pins (a pinned line is inserted without room and make_room may give
+     up several lines); the lift of C17_monotone to total_reads over the case's ascending
+     capacities; optimality of g_min_run among all replacement policies with bypass.
    Refuted outside region 0: when two lines of one binding are used next in the same iteration
    step (a read and a write to different lines) their ListElems compare equal, the line that is
    accessed is not at the head of next_evict and cacheTraffic stops with an AssertionError. *)
@@ -216,14 +267,13 @@ Proof. exact cache_tie_refuted. Qed.
 Print Assumptions C17_cache_tie_refuted.
 
 (* the faithful model meets the oracle outside region 1: filter, combine, buffet fills/write-backs,
-   cache fills = min_run, no failure, no temporary file are proved; what remains as hypotheses are
-   the two clauses that speak about the policy min_run itself (not about the code): its bounds
-   and its monotonicity in the capacity (C17_monotone, not proved) *)
+   cache fills = min_run, its bounds, no failure, no temporary file are proved; the one remaining
+   hypothesis is the monotonicity of the reference policy over the case's capacities (proved as
+   C17_monotone for schedules without staging pins, not lifted) *)
 Theorem C17_model_meets_spec : forall c, c17_wf c = true -> c17_region c = 0 ->
-  (forall cap, In cap (k_caps c) -> bounds_ok c (model_cache c cap) = true) ->
   non_increasing (map total_reads (map (model_cache c) (k_caps c))) = true ->
   holds c17_checker c (model c17_checker c) = true.
-Proof. exact model_meets_region0. Qed.
+Proof. exact model_meets_region0_mono. Qed.
 Print Assumptions C17_model_meets_spec.
 
 (* ... and in any region, given the whole cache clause *)
